@@ -112,13 +112,12 @@ def actOf (cfg : List (Indexer Id Res L)) (bk : Nat) (s : State Id K V O) (e : E
   else .discard
 
 /-- the view after an action -/
-def Act.view (veq : V → V → Bool) (a : Act K V) (obj : O) (old : Option K → O → Option V)
+def Act.view (a : Act K V) (obj : O) (old : Option K → O → Option V)
     (k : Option K) (o : O) : Option V :=
   match a with
   | .keep => old k o
   | .discard => if o = obj then none else old k o
-  | .replace m =>
-    if o = obj then (if k ∈ m.map Prod.fst then foldVal veq k m (old k obj) else none) else old k o
+  | .replace m => if o = obj then lastval k m else old k o
 
 /-- the memory after the event -/
 def memOf (cfg : List (Indexer Id Res L)) (bk : Nat) (s : State Id K V O) (e : Event Id Res L K V O)
@@ -129,12 +128,12 @@ def memOf (cfg : List (Indexer Id Res L)) (bk : Nat) (s : State Id K V O) (e : E
   else if c.selects e then some (hOf s e c)
   else s.mem e.obj c.id
 
-theorem applyOutcome_spec (veq : V → V → Bool) (o : O) (out : Outcome K V) (ix : Index (Option K) V O)
+theorem applyOutcome_spec (o : O) (out : Outcome K V) (ix : Index (Option K) V O)
     (hi : ix.Inv) :
-    ∃ ix', applyOutcome veq o out ix = some ix' ∧ ix'.Inv ∧
+    ∃ ix', applyOutcome o out ix = some ix' ∧ ix'.Inv ∧
       ∀ k o', ix'.val k o' =
         (if out.exception then Act.discard
-         else match out.result with | some m => Act.replace m | none => Act.keep).view veq o ix.val k o' := by
+         else match out.result with | some m => Act.replace m | none => Act.keep).view o ix.val k o' := by
   unfold applyOutcome
   by_cases hx : out.exception = true
   · simp only [hx, if_true]
@@ -144,20 +143,17 @@ theorem applyOutcome_spec (veq : V → V → Bool) (o : O) (out : Outcome K V) (
     cases hr : out.result with
     | none => exact ⟨ix, rfl, hi, fun k o' => by simp [Act.view]⟩
     | some m =>
-      obtain ⟨ix', h1, h2, h3⟩ := Index.replace_spec veq o m ix hi
-      exact ⟨ix', h1, h2, fun k o' => by
-        rw [h3]
-        simp only [Act.view, Bool.false_eq_true, if_false]
-        by_cases ho : o' = o <;> by_cases hk : k ∈ m.map Prod.fst <;> simp [ho, hk]⟩
+      obtain ⟨ix', h1, h2, h3⟩ := Index.replace_spec o m ix hi
+      exact ⟨ix', h1, h2, fun k o' => by simp [Act.view, h3]⟩
 
 /-- One event: the step is total (no `KeyError`), keeps the invariant of every index, leaves
     foreign indexers alone, and acts on each configured index as `actOf` says; the memory of the
     event's object becomes `memOf`, other objects' memories are untouched. -/
-theorem step_spec (veq : V → V → Bool) (cfg : List (Indexer Id Res L)) (bk : Nat)
+theorem step_spec (cfg : List (Indexer Id Res L)) (bk : Nat)
     (hnd : (cfg.map (·.id)).Nodup)
     (s : State Id K V O) (e : Event Id Res L K V O) (hi : s.InvAll) :
-    ∃ s', step veq cfg bk s e = some s' ∧ s'.InvAll ∧
-      (∀ c ∈ cfg, ∀ k o, (s'.ixs c.id).val k o = (actOf cfg bk s e c).view veq e.obj (s.ixs c.id).val k o) ∧
+    ∃ s', step cfg bk s e = some s' ∧ s'.InvAll ∧
+      (∀ c ∈ cfg, ∀ k o, (s'.ixs c.id).val k o = (actOf cfg bk s e c).view e.obj (s.ixs c.id).val k o) ∧
       (∀ c ∈ cfg, s'.mem e.obj c.id = memOf cfg bk s e c) ∧
       (∀ o, o ≠ e.obj → s'.mem o = s.mem o) := by
   unfold step
@@ -227,13 +223,13 @@ theorem step_spec (veq : V → V → Bool) (cfg : List (Indexer Id Res L)) (bk :
         exact hct (this ▸ hc')
       -- first loop
       obtain ⟨ixs1, a1, a2, a3⟩ := foldUpd_spec
-        (loop1 veq e.obj (todo.map (fun c => (c.id, g c))))
+        (loop1 e.obj (todo.map (fun c => (c.id, g c))))
         (todo.map (·.id)) hndt s.ixs
         (by
           intro i hm
           obtain ⟨c, hc, rfl⟩ := List.mem_map.1 hm
           simp only [loop1, hget_in c hc]
-          obtain ⟨ix', h, _⟩ := applyOutcome_spec veq e.obj (g c) (s.ixs c.id) (hi c.id)
+          obtain ⟨ix', h, _⟩ := applyOutcome_spec e.obj (g c) (s.ixs c.id) (hi c.id)
           exact ⟨ix', h⟩)
       have hinv1 : ∀ i, (ixs1 i).Inv := by
         intro i
@@ -241,7 +237,7 @@ theorem step_spec (veq : V → V → Bool) (cfg : List (Indexer Id Res L)) (bk :
         · obtain ⟨c, hc, rfl⟩ := List.mem_map.1 hm
           have := a2 c.id hm
           simp only [loop1, hget_in c hc] at this
-          obtain ⟨ix', h, hinv, _⟩ := applyOutcome_spec veq e.obj (g c) (s.ixs c.id) (hi c.id)
+          obtain ⟨ix', h, hinv, _⟩ := applyOutcome_spec e.obj (g c) (s.ixs c.id) (hi c.id)
           rw [h] at this
           cases this
           exact hinv
@@ -256,7 +252,7 @@ theorem step_spec (veq : V → V → Bool) (cfg : List (Indexer Id Res L)) (bk :
           · exact ⟨ixs1 i, by simp [loop2, hs]⟩
           · obtain ⟨ix', h, _⟩ := Index.discard_all_spec e.obj (ixs1 i) (hinv1 i)
             exact ⟨ix', by simp [loop2, hs, h]⟩)
-      have hrep : replaceAll veq (cfg.map (·.id)) e.obj (todo.map (fun c => (c.id, g c))) s.ixs = some ixs2 := by
+      have hrep : replaceAll (cfg.map (·.id)) e.obj (todo.map (fun c => (c.id, g c))) s.ixs = some ixs2 := by
         unfold replaceAll
         rw [hfst, a1]
         exact b1
@@ -288,7 +284,7 @@ theorem step_spec (veq : V → V → Bool) (cfg : List (Indexer Id Res L)) (bk :
           rw [← Option.some.inj hb]
           have ha := a2 c.id (List.mem_map_of_mem hct)
           simp only [loop1, hget_in c hct] at ha
-          obtain ⟨ix', h, _, hv⟩ := applyOutcome_spec veq e.obj (g c) (s.ixs c.id) (hi c.id)
+          obtain ⟨ix', h, _, hv⟩ := applyOutcome_spec e.obj (g c) (s.ixs c.id) (hi c.id)
           rw [h] at ha
           cases ha
           rw [hv k o]
